@@ -214,12 +214,18 @@ TINY = 2.0 ** -11
 UNIFYING_TINY = _s([x * TINY for x in [0, 1, 1, 0, 1, 1]], [x * TINY for x in [1, 1, 0, 1, 1, 0]])
 INDUCED05_TINY = _s([x * TINY for x in [0, 1, .5, 0, 0, 0]], [x * TINY for x in [.5, .5, 0, 0, 0, 0]])
 
+B5EQT5 = _s([0, 1, 1, 0, 1, 1], [1, 1, 0, 1, 1, 1])    # B[5] == T[5] > 0: no preset has it
+
+B1BIG = _s([0, 1024, .5, 0, 1024, .5], [.5, .5, 0, .5, .5, 0])    # B[1] three orders of magnitude above the rest
+
+B1EQ3T0 = _s([0, 3, 2, 0, 3, 0], [1, 1, 0, 1, 1, 0])      # B[1] = 3 T[0]: a 2-1 majority costs as much as a tie
+
 SCHQ = [
     ('unifying', UNIFYING), ('unifying_p05', UNIFYING_05), ('induced', INDUCED), ('induced_p05', INDUCED_05),
     ('pseudo', PSEUDO), ('pseudo_p05', PSEUDO_05), ('extended', EXTENDED), ('unifying_x3', UNIFYING_X3),
     ('induced_x05', INDUCED_X05), ('positional', POSITIONAL), ('zero_heavy', ZERO_HEAVY), ('b3ltb4', B3LTB4),
     ('b5gtt5', B5GTT5), ('b5ltt5', B5LTT5), ('unifB_otherT', UNIF_B_OTHER_T), ('indB_otherT', IND_B_OTHER_T),
-    ('unifying_p0375', UNIFYING_P0375),
+    ('unifying_p0375', UNIFYING_P0375), ('b5eqt5', B5EQT5), ('b1big', B1BIG),
 ]
 SCHQ_BY_NAME = dict(SCHQ)
 for _n, (_b, _t) in SCHQ:
@@ -248,6 +254,7 @@ LABEL_SETS = {
     'letters_rev': lambda n: [chr(ord('a') + n - 1 - i) for i in range(n)],
     'digit_strings': lambda n: [str(10 + i) for i in range(n)],
     'mixed_strings': lambda n: (['a'] + [str(i) for i in range(1, n)]),
+    'mixed_zeros': lambda n: (['x'] + ['0%d' % i for i in range(1, n)]),   # digit strings with a leading zero
     'words': lambda n: ['g%d_x' % (7 * i % 5) + 'ab'[i % 2] * (i + 1) for i in range(n)],
 }
 
